@@ -295,7 +295,7 @@ func stableCases(res *ShardResult, add func(string, map[string]interface{})) {
 	byteKeys := []string{"LastVoteCand"}
 	kinds := []storeKind{skWAL, skInmem, skBolt}
 	for mask := 0; mask < 8; mask++ {
-		for extra := 0; extra < 2; extra++ {
+		for extra := 0; extra < 4; extra++ {
 			for _, sk := range kinds {
 				for _, dk := range kinds {
 					// stores that answer "not found" with an error for unset keys make CopyStable fail; that is not asserted
@@ -328,6 +328,33 @@ func stableCases(res *ShardResult, add func(string, map[string]interface{})) {
 						src.st.Set([]byte(byteKeys[0]), wantB[byteKeys[0]])
 					}
 					var ek, eik [][]byte
+					if extra >= 2 && (sk != skInmem || dk != skInmem) {
+						// a name used in both key spaces needs stores that keep Set and SetUint64 apart
+						src.close()
+						dst.close()
+						continue
+					}
+					switch extra {
+					case 2:
+						// the same name as a byte key and as an integer key ("we don't assume all implementations
+						// share a key space for Set and SetUint64"), and a second, ordinary pair after it
+						ek = [][]byte{[]byte("xs"), []byte("xk")}
+						eik = [][]byte{[]byte("xs"), []byte("xi")}
+						wantB["xs"], wantB["xk"] = []byte("both"), []byte{9}
+						wantI["xs"], wantI["xi"] = 77, 1<<40
+						src.st.Set([]byte("xs"), wantB["xs"])
+						src.st.Set([]byte("xk"), wantB["xk"])
+						src.st.SetUint64([]byte("xs"), 77)
+						src.st.SetUint64([]byte("xi"), 1<<40)
+					case 3:
+						// an extra byte key named like a standard integer key, and the other way round
+						ek = [][]byte{[]byte("CurrentTerm")}
+						eik = [][]byte{[]byte("LastVoteCand")}
+						wantB["CurrentTerm"] = []byte("as bytes")
+						wantI["LastVoteCand"] = 5
+						src.st.Set([]byte("CurrentTerm"), wantB["CurrentTerm"])
+						src.st.SetUint64([]byte("LastVoteCand"), 5)
+					}
 					if extra == 1 {
 						ek = [][]byte{[]byte("xk")}
 						eik = [][]byte{[]byte("xi")}
